@@ -345,9 +345,9 @@ void HARNESS(void) { VIN(vin_t);
 UNITS.append(U(
     name='ref_parse_cookies_v0', props=['C02'], kind='bounded', src=['htp_cookies.c'], link=['bstr.c', 'htp_util.c'], replay='vin',
     pre=COOKIE_PRE, contracts_inc=['line_ref.h', 'c02_extract.h'], harness=COOKIE_H,
-    defs={'quick': mk({'N': 7, 'C02_COOKIE_STUBS': 1}), 'thorough': {'N': 9}},
-    flags_add=['--unwind', '12', '--unwinding-assertions', '--memory-leak-check'], flags_del=['--unsigned-overflow-check'], timeout=(600, 3000),
-    bound='all Cookie header values of every length 0..N (quick N=7, thorough N=9) in a buffer of capacity N; with / without Cookie header; table creation failing or not',
+    defs={'quick': mk({'N': 5, 'C02_COOKIE_STUBS': 1}), 'thorough': {'N': 7}},
+    flags_add=['--unwind', '9', '--unwinding-assertions', '--memory-leak-check'], flags_del=['--unsigned-overflow-check'], timeout=(600, 3000),
+    bound='all Cookie header values of every length 0..N (quick N=5, thorough N=7) in a buffer of capacity N; with / without Cookie header; table creation failing or not',
     assumes=AB + ['htp_table_get_c / htp_table_create / htp_table_addn are replaced by logging stubs (lookup answers a given header, addn compares the pair it is given with the next cookie of the reference, takes '
                   'ownership and succeeds): wire order = call order; the table itself is C17; a FAILING htp_table_addn is not modelled (its result is ignored by the code: candidate leak, notes/c02.md)'],
     sub='real htp_parse_cookies_v0 + htp_parse_single_cookie_v0: the reported (name, value) pairs, in wire order, are byte-identical sub-ranges of the header value: pieces between ";", '
